@@ -326,6 +326,11 @@ def render_type(name, node, cfg, types=None):
                 f'processContents="skip"/></xs:openContent>\n')
     if not is_group(node):
         node = ('s', (node,), 1, 1)
+    if cfg.get('groupref_root'):
+        # the whole model is a named group; the type's content is one reference to it, carrying the occurrence range
+        out = defs + render_group_def('R_' + name, node, cfg, types) + out[len(defs):]
+        out += f'    <xs:group ref="t:R_{name}"{occ_attrs(*occ(node))}/>\n  </xs:complexType>\n'
+        return out
     out += render_particle(node, cfg, '    ', types, named)
     out += '  </xs:complexType>\n'
     return out
